@@ -12,9 +12,9 @@ cd $D
 if git apply --check $PATCH 2>/dev/null; then git apply $PATCH; else echo "PATCH DOES NOT APPLY to current HEAD"; git apply --3way $PATCH 2>&1 | tail -2; fi
 /venv/bin/python -W ignore $DEMO >/dev/null 2>&1; echo "demo-with-patch exit=$? (want !=0)"
 if [ -z "$SKIPTESTS" ]; then
-/venv/bin/python -m pytest -q -p no:cacheprovider --timeout=900 -q 2>&1 | grep -E "^(FAILED|ERROR)" | sed 's/ - .*//' | sort > /tmp/seed_fail.txt
-diff <(sed 's/ - .*//' /tmp/scr_fail.txt | grep -E "^(FAILED|ERROR)") /tmp/seed_fail.txt > /dev/null && echo "suite: SAME_FAILSET" || { echo "suite: DIFFERENT"; diff <(sed 's/ - .*//' /tmp/scr_fail.txt | grep -E "^(FAILED|ERROR)") /tmp/seed_fail.txt | head -5; }
+/venv/bin/python -m pytest -q -p no:cacheprovider --timeout=900 -q 2>&1 | grep -E "^(FAILED|ERROR)" | sed 's/ - .*//' | sort > $D.fail.txt
+diff <(sed 's/ - .*//' /tmp/scr_fail.txt | grep -E "^(FAILED|ERROR)") $D.fail.txt > /dev/null && echo "suite: SAME_FAILSET" || { echo "suite: DIFFERENT"; diff <(sed 's/ - .*//' /tmp/scr_fail.txt | grep -E "^(FAILED|ERROR)") $D.fail.txt | head -5; }
 fi
 cd /verif
 for c in $CHECKS; do VERIF_REPO=$D ./check $c 2>&1 | grep -E "^(VIOLATION|UNDECIDED|CHECKER|C[0-9]+:)" | cut -c1-220 | head -6; echo "  -> $c exit=${PIPESTATUS[0]}"; done
-git -C /repo worktree remove --force $D
+git -C /repo worktree remove --force $D; rm -f $D.fail.txt
